@@ -215,19 +215,25 @@ impl BlockRanges {
 
     /// Create a `BlockRanges` from a [`SmallVec`].
     pub fn from_vec(ranges: SmallVec<[BlockRange; 2]>) -> Result<Self> {
-        let mut prev: Option<&RangeInclusive<u64>> = None;
+        let mut merged: SmallVec<[BlockRange; 2]> = SmallVec::with_capacity(ranges.len());
 
-        for range in &ranges {
+        for range in ranges {
             range.validate()?;
 
-            if prev.is_some_and(|prev| range.start() <= prev.end()) {
-                return Err(BlockRangesError::UnsortedBlockRanges);
+            match merged.last_mut() {
+                Some(prev) if range.start() <= prev.end() => {
+                    return Err(BlockRangesError::UnsortedBlockRanges);
+                }
+                // Adjacent ranges are one contiguous range. Merge them, as every other
+                // operation does, so that equal sets have equal representations.
+                Some(prev) if *prev.end() + 1 == *range.start() => {
+                    *prev = *prev.start()..=*range.end();
+                }
+                _ => merged.push(range),
             }
-
-            prev = Some(range);
         }
 
-        Ok(BlockRanges(ranges))
+        Ok(BlockRanges(merged))
     }
 
     /// Returns internal representation.
